@@ -1,11 +1,12 @@
 SPECIFICATION Spec
 CONSTANTS
   Peers = {1, 2, 3}
+  Streams = {3}
   MaxTime = 4
   Timeout = 2
   MaxIdle = 2
   MaxSess = 4
   HolderKinds = {"app", "obs"}
-INVARIANTS OneToOneI HeldAreLiveI LiveAreObjectsI DeadOnceI CausesI NoReuseI
+INVARIANTS OneToOneI HeldAreLiveI LiveAreObjectsI DeadOnceI CausesI NoReuseI ClosedAreLiveI
 VIEW View
 CHECK_DEADLOCK FALSE
